@@ -115,6 +115,24 @@ def main(rep, tier, only):
         t = ret_term(u, fn)
         ok = t == "distribution_.operator()(generator_)" or t == "distribution_.operator()(generator_.get())"
         (rep.ok if ok else rep.fail)("DEL", "variate::operator()", F.primary_site(fn), F.describe(fn)[:160], **({"how": t} if ok else {"why": "body is `%s`, expected distribution_(generator_.get())" % t}))
+    # constructors of variate store the caller's generator and distribution (state included) / build the distribution from the parameters
+    seenc = set()
+    for fn in L.method_fns(db, R + "variate"):
+        if fn.get("kind") != "ctor" or len(fn.get("params", [])) != 2 or fn.get("ctor_kind") in ("copy", "move"):
+            continue
+        u = fn["_unit"]
+        p1 = (u.ty(fn["params"][1]["t"]) or "")
+        kind = "param_type" if "param" in p1.lower() or "parameters::" in p1 else "distribution"
+        key = "variate::variate(generator, %s)" % kind
+        if key in seenc:
+            continue
+        seenc.add(key)
+        inits = {i["field"]: T.show(T.norm(u, i["init"])) for i in fn.get("inits", []) if i.get("field")}
+        g, d = fn["params"][0]["name"], fn["params"][1]["name"]
+        ok = g in inits.get("generator_", "") and d in inits.get("distribution_", "") and "param()" not in inits.get("distribution_", "")
+        (rep.ok if ok else rep.fail)("DEL", key, F.primary_site(fn), F.describe(fn)[:160],
+                                     **({"how": "generator_(generator), distribution_(%s)" % kind} if ok else
+                                        {"why": "the constructor initialises %s; expected generator_ from the generator and distribution_ from the given %s itself (a distribution passed in keeps its state)" % (inits or "by delegation", kind)}))
     for nm, pat in (("operator()", r"^wrapped_\.operator\(\)\(\)$"), ("min", r"^min\(\)$"), ("max", r"^max\(\)$")):
         for fn in dedupe(db.fns(R + "generator::basic_pseudo::" + nm)):
             u = fn["_unit"]
